@@ -12,6 +12,9 @@ import (
 	"errors"
 	"fmt"
 	"io"
+	"io/fs"
+	"os"
+	"path/filepath"
 	"strings"
 	"testing"
 
@@ -558,11 +561,57 @@ func checkC17Loader(c C17LoaderCase) error {
 			return fmt.Errorf("reload: loader call %d of %d failed but the returned error does not wrap the cause: %s; templates:%s", k, reloads, firstLine(r.Err), showSources(srcs))
 		}
 	}
+	// the same set on a real FileSystemLoader; one template after the other is replaced by a
+	// directory of its name (present, unreadable): the render must fail with the read error
+	// reachable through errors.As and must not claim that the template does not exist
+	root, err := os.MkdirTemp(workDir(), "c17-")
+	if err != nil {
+		return fmt.Errorf("harness: %v", err)
+	}
+	defer os.RemoveAll(root)
+	fsSrcs := map[string]string{}
+	for k, v := range srcs {
+		fsSrcs[k+".twig"] = v
+	}
+	mkFS := func() *twig.Engine {
+		e := twig.New()
+		e.RegisterLoader(twig.NewFileSystemLoader([]string{root}))
+		e.EnableSandbox(allowAll{})
+		NewSpies().Install(e)
+		return e
+	}
+	if err := writeTree(root, fsSrcs); err != nil {
+		return fmt.Errorf("harness: %v", err)
+	}
+	if r := render(mkFS(), c.Main, c.Ctx.Go()); r.Failed() || r.Out != base.Out {
+		return nil // the set does not render alike from disk (names the loader treats differently)
+	}
+	for _, name := range sortedTemplateNames(srcs) {
+		p := filepath.Join(root, name+".twig")
+		os.Remove(p)
+		os.MkdirAll(p, 0o755)
+		r := render(mkFS(), c.Main, c.Ctx.Go())
+		os.Remove(p)
+		os.WriteFile(p, []byte(srcs[name]), 0o644)
+		if r.Panic != "" {
+			return fmt.Errorf("panic when %s is unreadable: %s", name, r.Panic)
+		}
+		if r.Err == "" {
+			if r.Out == base.Out {
+				continue // the render does not need that template
+			}
+			return fmt.Errorf("%s.twig is present but unreadable (a directory): Render returned %s with a nil error, the intact set renders %s; templates:%s", name, q(r.Out), q(base.Out), showSources(srcs))
+		}
+		var pe *fs.PathError
+		if errors.Is(r.Error(), twig.ErrTemplateNotFound) || !errors.As(r.Error(), &pe) {
+			return fmt.Errorf("%s.twig is present but unreadable: the error %s does not wrap the read failure / claims the template does not exist; templates:%s", name, firstLine(r.Err), showSources(srcs))
+		}
+	}
 	return nil
 }
 
 func TestC17Loaders(t *testing.T) {
-	r := NewRec(t, "C17", "inheritance, include and import structures served by a spy loader; for every loader call k of the fault-free render the render is repeated on a fresh engine with call k failing with a wrapped sentinel (an I/O style failure, not 'not found'); then again with everything cached, auto-reload on and advanced timestamps, failing every loader call of the reloading render; non-trivial = the render loads at least two templates; distinct by source set")
+	r := NewRec(t, "C17", "inheritance, include and import structures served by a spy loader; for every loader call k of the fault-free render the render is repeated on a fresh engine with call k failing with a wrapped sentinel (an I/O style failure, not 'not found'); then again with everything cached, auto-reload on and advanced timestamps, failing every loader call of the reloading render; and on a real FileSystemLoader with each template in turn replaced by a directory of its name; non-trivial = the render loads at least two templates; distinct by source set")
 	defer r.Flush()
 	rapid.Check(t, func(rt *rapid.T) {
 		var sc SetCase
